@@ -179,7 +179,7 @@ def check_cli(ctx, plain, rng, scratch):
     case = {"kind": "cli", "asm": plain}
     agp = agp_ref.format(plain)
     tpf = tpf_ref.format(plain)
-    mode = rng.choice(["agp2tpf", "tpf2agp", "stdin", "override", "crlf", "outfile"])
+    mode = rng.choice(["agp2tpf", "tpf2agp", "stdin", "override", "crlf", "outfile", "multi", "multi"])
     ctx.count(f"cli:{mode}")
     if mode == "agp2tpf":
         (d / "a.agp").write_text(agp)
@@ -200,6 +200,13 @@ def check_cli(ctx, plain, rng, scratch):
         (d / "c.agp").write_bytes(agp.replace("\n", "\r\n").encode())
         r = cli_runs.run_asm_format([d / "c.agp", "-f", "AGP"])
         want = agp
+    elif mode == "multi":
+        # several input files of different formats in one invocation: each by its own extension
+        (d / "m1.agp").write_text(agp)
+        (d / "m2.tpf").write_text(tpf)
+        order = [d / "m1.agp", d / "m2.tpf"] if rng.random() < 0.5 else [d / "m2.tpf", d / "m1.agp"]
+        r = cli_runs.run_asm_format([*order, "-f", "TPF"])
+        want = tpf + tpf
     else:
         (d / "a.agp").write_text(agp)
         r = cli_runs.run_asm_format([d / "a.agp", "-o", d / "o.tpf"])
